@@ -216,6 +216,19 @@ CHECKS = {
              "indices and leaves out CPython's shared singleton nodes (Load, Add, ...). Outer-statement classification and liveness of entries after "
              "later instrumentations are decided by the oracle, not by a theorem.",
         ref="DESIGN.md section 7 C18"),
+    "C19": dict(
+        technique="Coq proof (a decorated call is a nest of enabled contexts of the context machine: state restored from any reachable state, returning or raising; delivery to exactly the decorator's tracers; code selection lemma) + real module files decorated and called, compared with the original function and with the same function instrumented through exec",
+        text="C19_scoped (a call of a function decorated with any list of tracers, from any state satisfying the invariant - also inside other contexts - returning or raising, "
+             "leaves the tracer stack, every tracer's flags, the hooks, the interpreter's trace function and the finder as they were), C19_not_left_active, C19_delivery (the "
+             "body's events reach exactly the decorator's tracers during the call, also when it then raises) and C19_select_first are Qed-closed over model/Decor.v on top of "
+             "model/Ctx.v (tied to tracer.py by C06 / C07's correspondence). ./check C19 writes ~60 real module files per run with 1-3 decorated module-level functions "
+             "(all parameter kinds, defaults, docstrings, raising, recursion, nested function of the same name, generators, another decorator above / below), decorates "
+             "them with 1-2 tracers through pyc.instrumented([...]) or @tracer, interleaves ~300 calls and compares: result / exception / side effects / name / docstring with "
+             "the undecorated copy, tracer stack and flags before and after every call, the events delivered during the call (and their node types) with the same "
+             "function text instrumented through exec, node validity, and that nothing is delivered outside calls.",
+        note="Trusted: Coq kernel + vm_compute; model/Ctx.v + Decor.v transcriptions (validated by C06 / C07's correspondence and by the before/after snapshots here); the "
+             "reference events come from the exec path, which C01 / C02 decide. Behavioural equality of the rewritten body is C01's theorem, not restated here.",
+        ref="DESIGN.md section 7 C19"),
     "C20": dict(
         technique="Coq proof (induction over well-nested operation blocks) on a transcribed model + in-coqc correspondence with the real TraceStack",
         text="Seven Qed-closed theorems over model/Stack.v (every well-nested operation sequence, every declaration with distinct names, every field order): "
